@@ -38,6 +38,7 @@ CFG = """CONSTANTS
   Probes <- MCProbes
   ResetOnBegin <- MCReset
   Lenient <- MCLenient
+  PyEq = FALSE
 SPECIFICATION ASpec
 INVARIANT Accept
 CHECK_DEADLOCK FALSE
